@@ -44,6 +44,8 @@ func unwrapHook(v reflect.Value) reflect.Value {
 
 func identityHook(v reflect.Value) reflect.Value { return v }
 
+func constHook(reflect.Value) reflect.Value { return reflect.ValueOf("K") }
+
 // Options builds the bexpr option list (in canonical order).
 func (o Opts) Options() []bexpr.Option {
 	var out []bexpr.Option
@@ -58,6 +60,8 @@ func (o Opts) Options() []bexpr.Option {
 		out = append(out, bexpr.WithHookFn(identityHook))
 	case ref.HookUnwrap:
 		out = append(out, bexpr.WithHookFn(unwrapHook))
+	case ref.HookConst:
+		out = append(out, bexpr.WithHookFn(constHook))
 	}
 	if o.MaxExpr != 0 {
 		out = append(out, bexpr.WithMaxExpressions(o.MaxExpr))
